@@ -82,8 +82,17 @@ def spell(rng, sys_, mom, all_mom=False):
 NICE = (0.5, 1.0, 1.5, 2.0, 3.0, 0.25, 4.0, 0.1, 7.5, 10.0)
 
 
+SPECIAL = {
+    "x": (-0.0, 5e-324, float("nan"), float("inf")), "y": (-0.0, 0.0, float("nan")), "z": (-0.0, float("inf"), -float("inf")),
+    "rho": (0.0, 5e-324, float("inf")), "phi": (math.pi, -math.pi, 0.0, -0.0, float("nan")),
+    "theta": (0.0, math.pi, math.pi / 2), "eta": (0.0, -0.0, float("inf")), "t": (0.0, float("nan"), float("inf")), "tau": (0.0, -0.0, float("nan")),
+}
+
+
 def value(rng, name, hazard=False):
-    """A well-conditioned value for coordinate `name` (hazard: singular/huge values allowed)."""
+    """A well-conditioned value for coordinate `name` (hazard: singular/huge/special values allowed)."""
+    if hazard and rng.random() < 0.25:
+        return rng.choice(SPECIAL[name])
     if hazard and rng.random() < 0.5:
         if name in ("rho",):
             return 0.0
@@ -126,6 +135,8 @@ def numkind(rng, v, kinds=("float", "float", "float", "int", "f64")):
     """Encode a coordinate value as a literal of a seeded numeric kind."""
     k = kinds[rng.randrange(len(kinds))]
     if k == "int":
+        if v != v or v in (float("inf"), -float("inf")):
+            return 1
         iv = int(round(v))
         return iv if iv != 0 or v == 0 else (1 if v > 0 else -1)
     if k == "f64":
